@@ -348,11 +348,11 @@ general:
 // dynamic type.
 func binop(op token.Token, t types.Type, x, y value) value {
 	switch x.(type) {
-	case sstr, numstr:
+	case sstr, numstr, decstr:
 		return strBinop(op, x, y)
 	}
 	switch y.(type) {
-	case sstr, numstr:
+	case sstr, numstr, decstr:
 		return strBinop(op, x, y)
 	}
 	_, xs := x.(*sym)
